@@ -31,10 +31,13 @@ VARIABLES
     leaked,   \* set of local ports of entries no handle refers to any more (D12)
     names,    \* Dns::names in registration order (sequence of names)
     anyl,     \* slots of listeners bound to the wildcard address (a remote peer reaches only those)
+    crashed,  \* kinds of the sockets that were live at the last crash (history only: keeps the states
+              \* after "crash with a pending connect", "crash with a listener", ... apart, so that
+              \* behaviour generation continues after each of them)
     nops, nin,
     last
 
-ivars == <<cursor, udpB, tcpB, ent, leaked, names, anyl, nops, nin>>
+ivars == <<cursor, udpB, tcpB, ent, leaked, names, anyl, crashed, nops, nin>>
 vars  == <<ppvars, ivars, last>>
 
 NoEnt == [port |-> 0, ref |-> 0]
@@ -45,7 +48,7 @@ Init ==
     /\ udpB = {} /\ tcpB = {}
     /\ ent = [s \in Slots |-> NoEnt]
     /\ leaked = {}
-    /\ names = <<>> /\ anyl = {}
+    /\ names = <<>> /\ anyl = {} /\ crashed = {}
     /\ nops = 0 /\ nin = 0
     /\ last = [a |-> "init"]
 
@@ -84,7 +87,7 @@ BindUdp(s, p, kind) ==
             /\ P_Bind("udp", s, p, IF p \in udpB THEN AddrInUse ELSE p)
             /\ Step([a |-> "bind", proto |-> "udp", kind |-> kind, s |-> s, p |-> p,
                      res |-> IF p \in udpB THEN AddrInUse ELSE p])
-    /\ UNCHANGED <<tcpB, ent, leaked, names, nin, anyl>>
+    /\ UNCHANGED <<tcpB, ent, leaked, names, nin, anyl, crashed>>
 
 BindTcp(s, p, kind) ==
     /\ "bind_tcp" \in Ops /\ nops < MaxOps /\ FreeSlot(s) /\ kind \in BindKindsP
@@ -101,7 +104,7 @@ BindTcp(s, p, kind) ==
             /\ Step([a |-> "bind", proto |-> "tcp", kind |-> kind, s |-> s, p |-> p,
                      res |-> IF p \in tcpB THEN AddrInUse ELSE p])
     /\ anyl' = IF kind = "any" /\ last'.res > 0 THEN anyl \cup {s} ELSE anyl
-    /\ UNCHANGED <<udpB, ent, leaked, names, nin>>
+    /\ UNCHANGED <<udpB, ent, leaked, names, nin, crashed>>
 
 \* TcpStream::connect.  how = "ok" (a listener accepts), "refused" (nobody listens),
 \* "noroute" (no host owns the address: send fails at once), "cancel" (the future is
@@ -113,18 +116,24 @@ Connect(s, how) ==
        /\ cursor' = a.cur
        /\ IF a.port = 0
           THEN /\ UNCHANGED <<ent, leaked>>
-               /\ P_Connect(s, Exhausted)
+               /\ (IF how = "hang" THEN P_ConnectPending(s, Exhausted) ELSE P_Connect(s, Exhausted))
                /\ Step([a |-> "connect", s |-> s, how |-> how, res |-> Exhausted])
           ELSE IF how = "ok"
           THEN /\ ent' = [ent EXCEPT ![s] = [port |-> a.port, ref |-> 2]]
                /\ leaked' = leaked
                /\ P_Connect(s, a.port)
                /\ Step([a |-> "connect", s |-> s, how |-> how, res |-> a.port])
+          ELSE IF how = "hang"
+          THEN \* the request waits at a listener that never accepts: the entry (and the port) stay
+               /\ ent' = [ent EXCEPT ![s] = [port |-> a.port, ref |-> 2]]
+               /\ leaked' = leaked
+               /\ P_ConnectPending(s, a.port)
+               /\ Step([a |-> "connect", s |-> s, how |-> how, res |-> a.port])
           ELSE /\ ent' = ent
                /\ leaked' = IF LeakOnFail THEN leaked \cup {a.port} ELSE leaked
                /\ P_Connect(s, Failed)
                /\ Step([a |-> "connect", s |-> s, how |-> how, res |-> Failed])
-    /\ UNCHANGED <<udpB, tcpB, names, nin, anyl>>
+    /\ UNCHANGED <<udpB, tcpB, names, nin, anyl, crashed>>
 
 \* TcpListener::accept on listener slot l: the new entry's local port is the listener's
 AcceptIn(s, l) ==
@@ -134,18 +143,18 @@ AcceptIn(s, l) ==
     /\ P_Accept(s, l, socks[l].port)
     /\ nin' = nin + 1
     /\ Step([a |-> "accept", s |-> s, l |-> l, res |-> socks[l].port])
-    /\ UNCHANGED <<cursor, udpB, tcpB, leaked, names, anyl>>
+    /\ UNCHANGED <<cursor, udpB, tcpB, leaked, names, anyl, crashed>>
 
 \* drop of a UdpSocket / TcpListener / whole TcpStream (both halves, nothing unread)
 Drop(s) ==
     /\ "drop" \in Ops /\ nops < MaxOps /\ Live(s)
     /\ udpB' = IF socks[s].kind = "udp" THEN udpB \ {socks[s].port} ELSE udpB
     /\ tcpB' = IF socks[s].kind = "lst" THEN tcpB \ {socks[s].port} ELSE tcpB
-    /\ ent'  = IF socks[s].kind \in {"out", "in"} THEN [ent EXCEPT ![s] = NoEnt] ELSE ent
+    /\ ent'  = IF socks[s].kind \in {"out", "in", "att"} THEN [ent EXCEPT ![s] = NoEnt] ELSE ent
     /\ P_Drop(s)
     /\ anyl' = anyl \ {s}
     /\ Step([a |-> "drop", s |-> s])
-    /\ UNCHANGED <<cursor, leaked, names, nin>>
+    /\ UNCHANGED <<cursor, leaked, names, nin, crashed>>
 
 \* drop of one owned half: Tcp::close_stream_half
 DropHalf(s, h) ==
@@ -155,7 +164,7 @@ DropHalf(s, h) ==
     /\ ent' = [ent EXCEPT ![s] = IF @.ref = 1 THEN NoEnt ELSE [@ EXCEPT !.ref = @ - 1]]
     /\ P_DropHalf(s, h)
     /\ Step([a |-> "drop_half", s |-> s, h |-> h])
-    /\ UNCHANGED <<cursor, udpB, tcpB, leaked, names, nin, anyl>>
+    /\ UNCHANGED <<cursor, udpB, tcpB, leaked, names, nin, anyl, crashed>>
 
 \* Sim::crash + Sim::bounce: every socket of the host is dropped; the host object
 \* (cursor, tables) survives
@@ -166,6 +175,7 @@ Crash ==
     /\ ent' = [s \in Slots |-> NoEnt]
     /\ P_Crash
     /\ anyl' = {}
+    /\ crashed' = {socks[s].kind : s \in {x \in Slots : Live(x)}}
     /\ Step([a |-> "crash"])
     /\ UNCHANGED <<cursor, leaked, names, nin>>
 
@@ -180,21 +190,21 @@ Lookup(n) ==
     /\ names' = IF Known(n) THEN names ELSE Append(names, n)
     /\ P_Lookup(n, AddrOfName(n))
     /\ Step([a |-> "lookup", n |-> n, res |-> AddrOfName(n)])
-    /\ UNCHANGED <<cursor, udpB, tcpB, ent, leaked, nin, anyl>>
+    /\ UNCHANGED <<cursor, udpB, tcpB, ent, leaked, nin, anyl, crashed>>
 
 \* reverse lookup of subnet offset k (registered or not)
 Reverse(k) ==
     /\ "reverse" \in Ops /\ nops < MaxOps
     /\ P_Reverse(k, IF k \in 1..Len(names) THEN names[k] ELSE 0)
     /\ Step([a |-> "reverse", k |-> k, res |-> IF k \in 1..Len(names) THEN names[k] ELSE 0])
-    /\ UNCHANGED <<cursor, udpB, tcpB, ent, leaked, names, nin, anyl>>
+    /\ UNCHANGED <<cursor, udpB, tcpB, ent, leaked, names, nin, anyl, crashed>>
 
 \* lookup of a literal address (inside or outside the subnet): passes through
 Literal(k) ==
     /\ "literal" \in Ops /\ nops < MaxOps
     /\ P_Literal(TRUE)
     /\ Step([a |-> "literal", k |-> k])
-    /\ UNCHANGED <<cursor, udpB, tcpB, ent, leaked, names, nin, anyl>>
+    /\ UNCHANGED <<cursor, udpB, tcpB, ent, leaked, names, nin, anyl, crashed>>
 
 \* lookup_many(regex): registered names that match, in registration order
 RegexRes(m) == LET ks == SelectSeq([k \in 1..Len(names) |-> k], LAMBDA k : names[k] \in m) IN ks
@@ -202,13 +212,13 @@ Regex(m) ==
     /\ "regex" \in Ops /\ nops < MaxOps
     /\ P_Regex(m, RegexRes(m))
     /\ Step([a |-> "regex", m |-> m, res |-> RegexRes(m)])
-    /\ UNCHANGED <<cursor, udpB, tcpB, ent, leaked, names, nin, anyl>>
+    /\ UNCHANGED <<cursor, udpB, tcpB, ent, leaked, names, nin, anyl, crashed>>
 
 ---------------------------------------------------------------------------
 Next ==
     \/ \E s \in Slots, p \in Fixed \cup {0}, kind \in BindKindsP : BindUdp(s, p, kind)
     \/ \E s \in Slots, p \in Fixed \cup {0}, kind \in BindKindsP : BindTcp(s, p, kind)
-    \/ \E s \in Slots, how \in {"ok", "refused", "noroute", "cancel"} : Connect(s, how)
+    \/ \E s \in Slots, how \in {"ok", "refused", "noroute", "cancel", "hang"} : Connect(s, how)
     \/ \E s, l \in Slots : AcceptIn(s, l)
     \/ \E s \in Slots : Drop(s)
     \/ \E s \in Slots, h \in {"r", "w"} : DropHalf(s, h)
@@ -228,7 +238,7 @@ ImplInv ==
     /\ cursor \in Range
     \* the handle table of the property level and the tables of the implementation agree
     /\ udpB = UdpPorts /\ tcpB = LstPorts
-    /\ \A s \in Slots : (socks[s].kind \in {"out", "in"}) <=> (ent[s].ref > 0)
+    /\ \A s \in Slots : (socks[s].kind \in {"out", "in", "att"}) <=> (ent[s].ref > 0)
     /\ \A s \in Slots : ent[s].ref > 0 =>
           /\ ent[s].port = socks[s].port
           /\ ent[s].ref = (IF socks[s].r THEN 1 ELSE 0) + (IF socks[s].w THEN 1 ELSE 0)
